@@ -11,6 +11,10 @@ def run_e1(spec, tier, seed):
     regmod = importlib.import_module(spec["registry"])
     reg = regmod.REG
     c = reg[spec["key"]]
+    if spec.get("cases"):
+        import copy
+        c = copy.copy(c)
+        c.cases = [x for x in c.cases if x.name in spec["cases"]]
     timeout_ms = int(__import__('os').environ.get('PYVC_TIMEOUT_MS', 25000 if tier == "quick" else 180000))
     rep = verify(c, reg, imports=getattr(regmod, "IMPORTS", {}), timeout_ms=timeout_ms, parallel=spec.get("parallel", 4))
     obs = []
